@@ -61,7 +61,11 @@ benign('C08', 'rename-local', DC, """        pwm_min = self.no_load_electric_cur
 mutant('C08', 'current-value-read-in-other-unit', DC, """(maximum_electric_current - no_load_electric_current) *
                 load_factor + no_load_electric_current""", """no_load_electric_current + load_factor *
                 (maximum_electric_current - no_load_electric_current)""", 'C08')
-benign('C08', 'threshold-cross-multiplied', DC, 'if abs(self.pwm) <= pwm_min:', 'if abs(self.pwm)*self.maximum_electric_current <= self.no_load_electric_current:', nth=0)
+# equal over the reals, but a different float predicate from the `elif self.pwm > pwm_min` next to it: at D = fl(i0/imax) about 5% of
+# (i0, imax) pairs give fl(D*imax) > i0, the test fails, the elif fails too and a positive D lands in the negative branch (non-zero torque
+# inside the dead zone) - the property quantifies over the boundary's floating-point neighbours, so this is a breaking edit
+mutant('C08', 'threshold-cross-multiplied', DC, 'if abs(self.pwm) <= pwm_min:', 'if abs(self.pwm)*self.maximum_electric_current <= self.no_load_electric_current:', 'C08.boundary-tests', nth=0)
+benign('C08', 'threshold-as-interval', DC, 'if abs(self.pwm) <= pwm_min:', 'if -pwm_min <= self.pwm <= pwm_min:', nth=0)
 
 UN = 'gearpy/units/units.py'
 UB = 'gearpy/units/unit_base.py'
